@@ -13,6 +13,9 @@ from . import lockstep as ls
 from .core import HarnessError, HOME
 
 
+START_TIMEOUT_S = float(os.environ.get('VERIF_SMP_START_S', '300'))     # real time; an overloaded machine needs minutes for 5 ASan processes
+
+
 def smp_shim_path(ctx):
     return os.path.join(ctx.work, 'lib', 'libvshim_smp.so')
 
@@ -45,6 +48,15 @@ class SmpSquid(ls.Squid):
         self.probes = 0
         self.stepping = False
         self.per_worker = False
+
+    def init_cache(self):
+        """squid -z in single-process mode (-N): creates the same rock db without forking five ASan processes."""
+        env = self._env()
+        env.pop('LD_PRELOAD', None)
+        cmd = [self._exe(), '-f', os.path.join(self.dir, 'squid.conf'), '-n', self.service, '-N', '-z']
+        r = subprocess.run(cmd, env=env, capture_output=True, user=ls.NOBODY_UID, group=ls.NOBODY_GID, extra_groups=[], timeout=START_TIMEOUT_S, cwd=self.dir)
+        if r.returncode != 0:
+            raise HarnessError('squid -N -z failed: %s %s' % (r.stdout[-500:], r.stderr[-1500:]))
 
     def worker_port(self, n):
         """http_port of worker n (1-based): port_base+1+n (port_base+1 is the origin of World-like helpers)."""
@@ -150,7 +162,7 @@ class SmpSquid(ls.Squid):
         (its Coordinator registration timeout would fire at once).  Phase 2: round-robin kicks (fixed order) with
         small clock steps until every worker listens on its port and the cache_dir is ready; then quiesce."""
         want = self.nworkers + 1 + (1 if self.cache_dir else 0)
-        deadline = time.time() + 120
+        deadline = time.time() + START_TIMEOUT_S
         while True:
             self._pump(0.05)
             if not self.alive():
@@ -159,8 +171,8 @@ class SmpSquid(ls.Squid):
             if len(kids) >= want and all(s.idle for s in kids.values()):
                 break
             if time.time() > deadline:
-                raise HarnessError('only kids %r came up in 120 s: %s' % (sorted(kids), self.cache_log()[-800:]))
-        deadline = time.time() + 120
+                raise HarnessError('only kids %r came up in %d s: %s' % (sorted(kids), START_TIMEOUT_S, self.cache_log()[-800:]))
+        deadline = time.time() + START_TIMEOUT_S
         while True:
             self.advance(100, rounds=1)
             if not self.alive() or len(self.kids()) < want:
@@ -171,7 +183,7 @@ class SmpSquid(ls.Squid):
             if listening and (not self.cache_dir or self._rebuild_done(log)):
                 break
             if time.time() > deadline:
-                raise HarnessError('squid %s not ready after 120 s: %s' % (self.name, log[-1500:]))
+                raise HarnessError('squid %s not ready after %d s: %s' % (self.name, START_TIMEOUT_S, log[-1500:]))
         # canonical start state: let start-up timers fire, then quiesce
         for _ in range(12):
             self.advance(500, rounds=1)
